@@ -24,9 +24,18 @@ namespace LyModel.Sib
 
 /-! ## keys -/
 
+/-- one key-leaf value of a list with several keys -/
+inductive Atom where
+  | int (i : Int)
+  | str (b : Bytes)
+  deriving DecidableEq, Repr, Inhabited
+
+/-- what a node is ordered / hashed by: the value of a leaf-list instance or of the single key of a list instance (`int`,
+    `str`), or — list with two or more keys — the tuple of its key-leaf values in SCHEMA order (`tup`) -/
 inductive Key where
   | int (i : Int)
   | str (b : Bytes)
+  | tup (ks : List Atom)
   deriving DecidableEq, Repr, Inhabited
 
 /-- `strcmp` on canonical strings (unsigned bytes) ≤ 0 -/
@@ -35,12 +44,31 @@ def lexLe : Bytes → Bytes → Bool
   | _ :: _, [] => false
   | a :: as, b :: bs => a < b || (a == b && lexLe as bs)
 
-/-- the type plugin's `sort` callback ≤ 0 (`lyplg_type_sort_int/uint`: numeric, `lyplg_type_sort_simple`: strcmp) -/
-def Key.le : Key → Key → Bool
+/-- the type plugin's `sort` callback ≤ 0 on one value -/
+def Atom.le : Atom → Atom → Bool
   | .int a, .int b => a ≤ b
   | .str a, .str b => lexLe a b
   | .int _, .str _ => true
   | .str _, .int _ => false
+
+/-- `rb_compare_lists` ≤ 0: the first key by its `sort` callback; if that is 0 (equal canonical values) the next key, … -/
+def lexAtoms : List Atom → List Atom → Bool
+  | [], _ => true
+  | _ :: _, [] => false
+  | a :: as, b :: bs => if a = b then lexAtoms as bs else a.le b
+
+/-- the type plugin's `sort` callback ≤ 0 (`lyplg_type_sort_int/uint`: numeric, `lyplg_type_sort_simple`: strcmp);
+    key tuples key by key (`rb_compare_lists`); values of different shape never meet inside one (leaf-)list -/
+def Key.le : Key → Key → Bool
+  | .int a, .int b => a ≤ b
+  | .str a, .str b => lexLe a b
+  | .tup a, .tup b => lexAtoms a b
+  | .int _, .str _ => true
+  | .int _, .tup _ => true
+  | .str _, .tup _ => true
+  | .str _, .int _ => false
+  | .tup _, .int _ => false
+  | .tup _, .str _ => false
 
 /-! ## schema references -/
 
